@@ -437,8 +437,10 @@ func C18(c *core.Ctx) {
 	c18Consult(c)
 	c18Tags(c, a)
 	c18TagRule(c)
+	deadRulesAfterSkip(c, "C18-R7", "no validation rule is written after an unconditional validation.Skip")
 	c18ComboRegime(c)
 	c18Exact(c)
+	c18Components(c)
 }
 
 // c18ComboRegime: the regime whose tables a combo's category and rate are
